@@ -35,6 +35,7 @@ RULE += (" A quarter of the streams starts with an action: global template docum
 RULE += (" A quarter of the rules has two conditions; a quarter of the streams derives a further rule from the last one through an action: repeat document.")
 RULE += (" Rules have an id and a name, only a name or only an id; rule lists mix ids and names in both orders.")
 RULE += (" Filter documents stand at the end of the stream or between the rule documents (also directly before an action: repeat document).")
+RULE += (" Detection bodies of rules and filters come in the shapes rules are written in: one map, a map with two items, a list of maps, a value list.")
 ASSUMPTIONS = [
     "vf/ref is the specification of rule and filter conditions; atoms independent",
     "the library's random prefix is drawn from random.choices; the case fixes random.seed",
@@ -267,9 +268,21 @@ def cases(draw):
     nr = draw(st.integers(1, 3))
     rules = []
     fieldpool = ["f", "g", "h2", "user"]
+
+    def body(tag):
+        # detection bodies in the shapes rules are written in: one map, a map with two items, a list of maps, a value list
+        shape = draw(st.sampled_from([0, 0, 0, 1, 2, 2, 3]))
+        fa, fb = draw(st.sampled_from(fieldpool)), draw(st.sampled_from(fieldpool))
+        if shape == 0:
+            return {fa: tag}
+        if shape == 1:
+            return {fa: tag} if fa == fb else {fa: tag, fb: tag + "b"}
+        if shape == 2:
+            return [{fa: tag}, {fb: tag + "b"}]
+        return {fa: [tag, tag + "b"]}
     for i in range(nr):
         names = draw(st.lists(st.sampled_from(NAMES), min_size=2, max_size=3, unique=True))
-        det = {n: {draw(st.sampled_from(fieldpool)): f"r{i}{k}"} for k, n in enumerate(names)}
+        det = {n: body(f"r{i}{k}") for k, n in enumerate(names)}
         det["condition"] = draw(st.sampled_from(_valid(RULE_CONDS, names)))
         if draw(st.integers(0, 3)) == 0:
             det["condition"] = [det["condition"], names[0]]
@@ -293,7 +306,7 @@ def cases(draw):
     filters = []
     for j in range(nf):
         names = draw(st.lists(st.sampled_from(NAMES), min_size=2, max_size=3, unique=True))
-        fd = {n: {draw(st.sampled_from(fieldpool)): f"x{j}{k}"} for k, n in enumerate(names)}
+        fd = {n: body(f"x{j}{k}") for k, n in enumerate(names)}
         fd["condition"] = draw(st.sampled_from(_valid(FILTER_CONDS, names)))
         u0 = UUIDS[0]
         spellings = [u0, u0.upper(), "{" + u0 + "}", "urn:uuid:" + u0, u0.replace("-", "")]
